@@ -58,7 +58,10 @@ Lemma concat_example_supported :
   /\ run_concat two_parts [AList [3; 0; -1]] = spec_concat two_parts [] [AList [3; 0; -1]]
   /\ run_concat two_parts [AMask [true; false; false; true; true]; AInt 0]
      = spec_concat two_parts [] [AMask [true; false; false; true; true]; AInt 0].
-Proof. repeat split; vm_compute; try reflexivity; discriminate. Qed.
+Proof.
+  split; [vm_compute; reflexivity|]. split; [vm_compute; discriminate|]. split; [vm_compute; reflexivity|].
+  vm_compute; reflexivity.
+Qed.
 
 (* parts with byte strings of different widths (the narrow one first, an empty part of another kind between them):
    every head kind answers in the dtype of the concatenation |S4 with the full strings; kinds that do not all
@@ -78,7 +81,11 @@ Lemma concat_dtype_example :
   /\ run_concat bytes_parts [AMask [false; true; false; false; true]] = spec_concat bytes_parts [] [AMask [false; true; false; false; true]]
   /\ run_concat [mk_craw [2] [] (arange [2] 0) 0; mk_craw [2] [] (arange [2] 1) 1] [] = Err
   /\ cast_val 104 102 (enc_val 104 7) <> enc_val 104 7.
-Proof. repeat split; vm_compute; try reflexivity; discriminate. Qed.
+Proof.
+  split; [vm_compute; reflexivity|]. split; [vm_compute; reflexivity|]. split; [vm_compute; reflexivity|].
+  split; [vm_compute; reflexivity|]. split; [vm_compute; reflexivity|]. split; [vm_compute; reflexivity|].
+  split; [vm_compute; reflexivity|]. vm_compute; discriminate.
+Qed.
 
 (* ================================================================== C05_concat *)
 
@@ -266,7 +273,7 @@ Lemma find_indexer_spec lens x : Forall (fun h => 0 <= h) lens -> lens <> [] -> 
   /\ bnd lens (Z.to_nat ind) <= x
   /\ (ind + 1 < zlen lens -> x < bnd lens (S (Z.to_nat ind))).
 Proof.
-  intros Hn Hne Hx ind. unfold ind, find_indexer, zlen.
+  intros Hn Hne Hx ind. unfold ind, find_indexer, concat_find_indexer, concat_searchsorted_before, zlen.
   destruct (count_spec x lens 0 Hn) as [C1 [C2 [C3 C4]]].
   set (c := List.length (filter (fun s => s <=? x) (starts_from 0 lens))) in *.
   specialize (C4 Hx Hne). split; [lia|].
@@ -512,8 +519,9 @@ Section Branches.
     exists hs, resolve total (AInt z) = Ok hs /\ head_result out hs.
   Proof.
     cbn [c_head]. fold lens. fold starts.
+    unfold concat_norm_scalar, concat_scalar_rejected, concat_local_scalar.
     set (z' := if z <? 0 then total + z else z).
-    destruct ((0 <=? z') && (z' <? total)) eqn:E; [|discriminate].
+    destruct ((0 <=? z') && (z' <? total)) eqn:E; cbn [negb]; [|discriminate].
     destruct (find_indexer_spec lens z' LN LE ltac:(lia)) as [I1 [I2 I3]].
     set (ind := find_indexer starts z') in *. fold starts in I1, I2, I3. fold ind in I1, I2, I3.
     set (pd := mk_cpart (mk_lazyidx [] [] [] 0) (Leaf 0)).
@@ -603,8 +611,86 @@ Section SliceBranch.
                          (Z.to_nat (stop - first_ge start st (bnd lens j)))). lia.
   Qed.
 
+  Let HFrel (j : nat) (c : arr) : Prop :=
+    a_dtype c = dt /\ a_nd c = mk_nd (zlen (Pos j) :: take_shape S) (Node (map (row CH S) (Pos j))).
+
+  (* a chunk that is extracted is the block of rows Pos j of the concatenation *)
+  Lemma slice_chunk_block ind c : 0 <= ind < Z.of_nat k -> bnd lens (Z.to_nat ind) <= stop ->
+    slice_chunk dt ps starts tail (take_shape S) start stop st ind = Ok c -> HFrel (Z.to_nat ind) c.
+  Proof.
+    intros Bd Hoffs Hc.
+    assert (Hl : List.length lens = k) by (unfold lens, k; apply map_length).
+    set (pd := mk_cpart (mk_lazyidx [] [] [] 0) (Leaf 0)).
+    set (j := Z.to_nat ind) in *.
+    assert (Hj : (j < k)%nat) by (unfold j; lia).
+    unfold slice_chunk in Hc.
+    rewrite (py_nth_nonneg ps ind pd) in Hc by (unfold zlen; fold k; lia). cbn [bind] in Hc.
+    rewrite (py_nth_nonneg starts ind 0) in Hc
+      by (unfold zlen, starts; rewrite starts_from_length, Hl; lia). cbn [bind] in Hc.
+    fold j in Hc.
+    assert (Hoff : nth j starts 0 = bnd lens j).
+    { unfold starts. rewrite starts_from_nth by (rewrite Hl; exact Hj). lia. }
+    rewrite Hoff in Hc.
+    set (off := bnd lens j) in *.
+    unfold concat_chunk_start, concat_chunk_stop in Hc.
+    set (cs := if off <=? start then start - off else (start - off) mod st) in *.
+    destruct (part_get dt (nth j ps pd) _) as [sub|] eqn:EG; [|discriminate]. cbn [bind] in Hc.
+    unfold reshape_chunk in Hc. destruct (existsb _ _); [discriminate|]. injection Hc as <-.
+    destruct (part_rows ps fs T dt tail S HP HT HS Hlen _ pd _ _ Hj EG) as [Pq [d [ER [HD [HN _]]]]].
+    fold lens in ER, HN. fold CH in HN. fold off in HN.
+    cbn [resolve] in ER. destruct (slice_positions _ _ _ _) as [Pq'|] eqn:SP; [|discriminate].
+    injection ER as <- <-.
+    assert (Hcs : 0 <= cs) by (unfold cs; destruct (off <=? start) eqn:E; [lia|apply Z.mod_pos_bound; lia]).
+    assert (Hh : 0 <= nth j lens 0).
+    { rewrite Forall_forall in LN. apply LN. apply nth_In. rewrite Hl. exact Hj. }
+    pose proof (local_slice_positions off _ cs stop st Pq' Hst Hh Hcs ltac:(lia) SP) as LP.
+    assert (Hfg : off + cs = first_ge start st off).
+    { unfold cs, first_ge. destruct (off <=? start); lia. }
+    assert (HS1 : off + nth j lens 0 = bnd lens (Datatypes.S j)) by (unfold off; rewrite bnd_S by (rewrite Hl; exact Hj); lia).
+    rewrite Hfg, HS1 in LP.
+    assert (LP' : map (fun q => off + q) Pq' = Pos j) by (unfold Pos; fold off; exact LP).
+    split; [exact HD|]. rewrite HN. cbn [take_shape]. rewrite LP'.
+    f_equal. f_equal. rewrite <- LP'. now rewrite zlen_map.
+  Qed.
+
+  (* the loop with its `continue`: the extracted chunks are the blocks of the indexers that were not skipped, and a
+     skipped indexer owns no selected row *)
+  Lemma slice_chunks_blocks : forall inds have chunks,
+    Forall (fun ind => 0 <= ind < Z.of_nat k /\ bnd lens (Z.to_nat ind) <= stop) inds ->
+    slice_chunks dt ps starts tail (take_shape S) start stop st have inds = Ok chunks ->
+    exists js, Forall2 HFrel js chunks /\ flat_map Pos js = flat_map Pos (map Z.to_nat inds).
+  Proof.
+    assert (Hl : List.length lens = k) by (unfold lens, k; apply map_length).
+    induction inds as [|ind r IH]; intros have chunks HB HC.
+    - cbn in HC. injection HC as <-. exists []. split; [constructor|reflexivity].
+    - inversion HB as [|? ? [Bd Hoffs] HB']; subst. cbn [slice_chunks] in HC.
+      rewrite (py_nth_nonneg starts ind 0) in HC
+        by (unfold zlen, starts; rewrite starts_from_length, Hl; lia). cbn [bind] in HC.
+      set (j := Z.to_nat ind) in *.
+      assert (Hj : (j < k)%nat) by (unfold j; lia).
+      assert (Hoff : nth j starts 0 = bnd lens j).
+      { unfold starts. rewrite starts_from_nth by (rewrite Hl; exact Hj). lia. }
+      rewrite Hoff in HC. set (off := bnd lens j) in *.
+      destruct (concat_chunk_skipped have _ _) eqn:ESK.
+      + (* skipped: nothing of the progression lies in this indexer *)
+        destruct (IH have chunks HB' HC) as [js [F1 F2]]. exists js. split; [exact F1|].
+        cbn [map flat_map]. fold j. rewrite F2.
+        assert (EP : Pos j = []).
+        { unfold Pos. fold off. apply py_range_nil; [exact Hst|].
+          unfold concat_chunk_skipped, concat_chunk_start, concat_chunk_stop in ESK.
+          apply andb_prop in ESK. destruct ESK as [_ ESK].
+          unfold first_ge. destruct (off <=? start) eqn:E; lia. }
+        now rewrite EP.
+      + destruct (slice_chunk _ _ _ _ _ _ _ _ ind) as [c|] eqn:EC; [|discriminate]. cbn [bind] in HC.
+        destruct (slice_chunks _ _ _ _ _ _ _ _ true r) as [rest|] eqn:ER; [|discriminate]. cbn [bind] in HC.
+        injection HC as <-.
+        destruct (IH true rest HB' ER) as [js [F1 F2]]. exists (j :: js). split.
+        * constructor; [|exact F1]. exact (slice_chunk_block ind c Bd Hoffs EC).
+        * cbn [map flat_map]. fold j. now rewrite F2.
+  Qed.
+
   Lemma head_slice_chunks chunks out :
-    mapM (slice_chunk dt ps starts tail (take_shape S) start stop st)
+    slice_chunks dt ps starts tail (take_shape S) start stop st false
          (py_range (find_indexer starts start) (find_indexer starts stop + 1) 1) = Ok chunks ->
     concat_chunks dt (take_shape S) chunks = Ok out ->
     head_result fs dt S out (py_range start stop st, false).
@@ -619,44 +705,13 @@ Section SliceBranch.
     unfold zlen in A1, B1. rewrite Hl in A1, B1.
     destruct (Z_lt_ge_dec (ib + 1) ia) as [Hlt|Hge].
     { rewrite py_range_nil in HM by lia. cbn in HM. injection HM as <-. discriminate. }
-    set (pd := mk_cpart (mk_lazyidx [] [] [] 0) (Leaf 0)).
-    (* every chunk is the block of rows Pos j of the concatenation *)
-    assert (HF : Forall2 (fun j c => a_dtype c = dt /\ a_nd c = mk_nd (zlen (Pos j) :: take_shape S) (Node (map (row CH S) (Pos j))))
-                         (map Z.to_nat (py_range ia (ib + 1) 1)) chunks).
-    { apply Forall2_map_l. eapply mapM_Forall2_rel; [exact HM|]. intros ind c Hin Hc.
+    assert (HB : Forall (fun ind => 0 <= ind < Z.of_nat k /\ bnd lens (Z.to_nat ind) <= stop) (py_range ia (ib + 1) 1)).
+    { apply Forall_forall. intros ind Hin.
       destruct (py_range_bounds ia (ib + 1) 1 ind ltac:(lia) Hin) as [Bd _]. specialize (Bd ltac:(lia)).
-      set (j := Z.to_nat ind).
-      assert (Hj : (j < k)%nat) by (unfold j; lia).
-      unfold slice_chunk in Hc.
-      rewrite (py_nth_nonneg ps ind pd) in Hc by (unfold zlen; fold k; lia). cbn [bind] in Hc.
-      rewrite (py_nth_nonneg starts ind 0) in Hc
-        by (unfold zlen, starts; rewrite starts_from_length, Hl; lia). cbn [bind] in Hc.
-      fold j in Hc.
-      assert (Hoff : nth j starts 0 = bnd lens j).
-      { unfold starts. rewrite starts_from_nth by (rewrite Hl; exact Hj). lia. }
-      rewrite Hoff in Hc.
-      set (off := bnd lens j) in *.
-      set (cs := if off <=? start then start - off else (start - off) mod st) in *.
-      destruct (part_get dt (nth j ps pd) _) as [sub|] eqn:EG; [|discriminate]. cbn [bind] in Hc.
-      unfold reshape_chunk in Hc. destruct (existsb _ _); [discriminate|]. injection Hc as <-.
-      destruct (part_rows ps fs T dt tail S HP HT HS Hlen _ pd _ _ Hj EG) as [Pq [d [ER [HD [HN _]]]]].
-      fold lens in ER, HN. fold CH in HN. fold off in HN.
-      cbn [resolve] in ER. destruct (slice_positions _ _ _ _) as [Pq'|] eqn:SP; [|discriminate].
-      injection ER as <- <-.
-      assert (Hcs : 0 <= cs) by (unfold cs; destruct (off <=? start) eqn:E; [lia|apply Z.mod_pos_bound; lia]).
-      assert (Hoffs : off <= stop).
-      { unfold off. pose proof (bnd_mono_le lens j (Z.to_nat ib) LN ltac:(unfold j; lia)). lia. }
-      assert (Hh : 0 <= nth j lens 0).
-      { rewrite Forall_forall in LN. apply LN. apply nth_In. rewrite Hl. exact Hj. }
-      pose proof (local_slice_positions off _ cs stop st Pq' Hst Hh Hcs ltac:(lia) SP) as LP.
-      assert (Hfg : off + cs = first_ge start st off).
-      { unfold cs, first_ge. destruct (off <=? start); lia. }
-      assert (HS1 : off + nth j lens 0 = bnd lens (Datatypes.S j)) by (unfold off; rewrite bnd_S by (rewrite Hl; exact Hj); lia).
-      rewrite Hfg, HS1 in LP.
-      assert (LP' : map (fun q => off + q) Pq' = Pos j) by (unfold Pos; fold off; exact LP).
-      split; [exact HD|]. rewrite HN. cbn [take_shape]. rewrite LP'.
-      f_equal. f_equal. rewrite <- LP'. now rewrite zlen_map. }
+      split; [lia|]. pose proof (bnd_mono_le lens (Z.to_nat ind) (Z.to_nat ib) LN ltac:(lia)). lia. }
+    destruct (slice_chunks_blocks _ _ _ HB HM) as [js [HF HFM]].
     pose proof (chunks_rows fs dt S Pos _ _ _ HF HC) as ->.
+    rewrite HFM.
     (* the blocks tile the global progression *)
     assert (HJ : map Z.to_nat (py_range ia (ib + 1) 1) = seq (Z.to_nat ia) (Z.to_nat (ib + 1 - ia))).
     { rewrite py_range_unit by lia. apply py_range_unit_seq. lia. }
@@ -905,7 +960,7 @@ Section ListBranch.
     - assert (Hik : (i < k)%nat) by lia.
       rewrite (skipn_nth_cons ps i pd) in HSP by exact Hik.
       rewrite (skipn_nth_cons starts i 0) in HSP by (unfold starts; rewrite starts_from_length, Hl; exact Hik).
-      cbn [scatter_parts] in HSP.
+      cbn [scatter_parts] in HSP. unfold concat_local_list in HSP.
       assert (Hoff : nth i starts 0 = bnd lens i).
       { unfold starts. rewrite starts_from_nth by (rewrite Hl; exact Hik). lia. }
       rewrite Hoff in HSP.
@@ -958,7 +1013,7 @@ Proof.
   set (total := zsum (map part_len ps)) in *.
   destruct (mapM (wrap_res total) l) as [P|] eqn:EW; [|discriminate]. cbn [bind] in HC.
   destruct (wrap_all_norm _ _ _ EW) as [HPn HPos].
-  rewrite <- HPn in HC.
+  unfold concat_norm_list in HC. rewrite <- HPn in HC.
   destruct (scatter_parts _ _ _ _ _ _ _) as [rows|] eqn:ESP in HC; [|discriminate]. cbn [bind] in HC.
   destruct (mapM _ rows) as [rows'|] eqn:ER in HC; [|discriminate]. cbn [bind] in HC. injection HC as <-.
   assert (HF0 : Forall2 (filled fs S) (repeat None (List.length l)) P).
@@ -991,13 +1046,14 @@ Section Core.
     - exact (head_scalar ps fs T dt tail S HP HT HS Hne Hlen z out0 HC).
     - cbn [c_head] in HC. fold lens in HC. fold total in HC.
       destruct (slice_indices total a b cc) as [[[start stop] st]|] eqn:ESI; [|discriminate].
+      unfold concat_stride_rejected, concat_first_indexer, concat_end_indexer in HC.
       destruct (st <? 0) eqn:Est; [discriminate|].
       assert (Htot : 0 <= total).
       { unfold total. pose proof (lens_nonneg ps Hlen) as LN. fold lens in LN. clear -LN.
         induction LN; cbn; [lia|]. fold (zsum l). lia. }
       destruct (slice_indices_bounds _ _ _ _ _ _ _ Htot ESI) as [H0 [Bp _]].
       specialize (Bp ltac:(lia)).
-      destruct (mapM _ _) as [chunks|] eqn:EM in HC; [|discriminate]. cbn [bind] in HC.
+      destruct (slice_chunks _ _ _ _ _ _ _ _ _ _) as [chunks|] eqn:EM in HC; [|discriminate]. cbn [bind] in HC.
       exists (py_range start stop st, false). split.
       + cbn [resolve]. unfold slice_positions. now rewrite ESI.
       + assert (Hst : 0 < st) by lia.
@@ -1033,6 +1089,35 @@ Section Core.
     unfold oindex, resolve_all. cbn [nd_shape nd_body List.length]. rewrite EPad.
     cbn [combine mapM fst snd]. rewrite ER. cbn [bind]. rewrite ES. cbn [bind].
     destruct out0 as [d0 n0]. cbn [a_dtype a_nd] in HD, HN. subst d0 n0. exact HG.
+  Qed.
+  (* shape / dtype / len of the full result through the transform chain *)
+  Lemma concat_core_shape ts out s d : Forall (fun x => 0 <= x) T ->
+    c_initial_dtype ps = Ok dt ->
+    c_getitem (mk_concat ps ts) [] = Ok out ->
+    c_shape (mk_concat ps ts) = Ok s -> c_dtype (mk_concat ps ts) = Ok d ->
+    nd_shape (a_nd out) = s /\ a_dtype out = d /\ hd 0 s = total.
+  Proof.
+    intros HTn Hdt HG HS HD.
+    pose proof (concat_core ts [] out Hdt HG) as CC.
+    assert (Htot : 0 <= total).
+    { unfold total. pose proof (lens_nonneg ps Hlen) as LN. fold lens in LN. clear -LN.
+      induction LN; cbn; [lia|]. fold (zsum l). lia. }
+    unfold oindex in CC. cbn [nd_shape nd_body] in CC.
+    rewrite resolve_all_nil in CC by (constructor; assumption). cbn [bind] in CC.
+    destruct (apply_transforms_shape_dtype _ _ _ CC) as [S1 D1]. cbn [a_nd a_dtype nd_shape] in S1, D1.
+    rewrite take_shape_full_sels in S1 by (constructor; assumption).
+    unfold c_shape in HS. cbn [c_parts c_ts] in HS.
+    assert (HI : c_initial_shape ps = Ok (total :: T)).
+    { unfold c_getitem in HG. cbn [c_parts] in HG. unfold c_initial_shape in *. destruct ps as [|p r] eqn:EP; [discriminate|].
+      destruct (forallb _ r); [|discriminate]. inversion HP as [|? f ? fs' H0 _]; subst.
+      destruct H0 as [_ [Ht _]]. rewrite Ht. reflexivity. }
+    rewrite HI in HS. cbn [bind] in HS. rewrite <- S1 in HS.
+    destruct (negb _ && is_prefix _ _) eqn:EC in HS; [|discriminate]. injection HS as <-.
+    unfold c_dtype in HD. cbn [c_parts c_ts] in HD. rewrite Hdt in HD. cbn [bind] in HD. injection HD as <-.
+    split; [reflexivity|]. split; [exact D1|].
+    apply andb_prop in EC. destruct EC as [EN EC]. cbn [List.length firstn] in EC, EN.
+    destruct (nd_shape (a_nd out)) as [|x l]; [discriminate EN|]. cbn [firstn is_prefix hd] in *.
+    apply andb_prop in EC. destruct EC as [EC _]. lia.
   Qed.
 End Core.
 
@@ -1219,3 +1304,84 @@ Proof.
   rewrite <- HW. unfold cat. rewrite flat_map_concat_map, map_map. rewrite <- HC.
   rewrite ET. exact CC.
 Qed.
+
+Lemma take_shape_nonneg : forall sels, Forall (fun x => 0 <= x) (take_shape sels).
+Proof. induction sels as [|[ps d] r IH]; cbn [take_shape]; [constructor|]. destruct d; [exact IH|]. constructor; [apply zlen_nonneg|exact IH]. Qed.
+
+Lemma oindex_keep_shape_nonneg a ix f : oindex_keep a ix = Ok f -> Forall (fun x => 0 <= x) (nd_shape f).
+Proof.
+  unfold oindex_keep. destruct (keep_sels _ _); [|discriminate]. cbn [bind]. intro H; injection H as <-. apply take_shape_nonneg.
+Qed.
+
+Lemma used_of_incl {A} (nz : A -> bool) l x : In x (used_of nz l) -> In x l.
+Proof.
+  unfold used_of. destruct (filter nz l) eqn:E.
+  - destruct l; cbn; [tauto|]. intros [<-|[]]. now left.
+  - rewrite <- E. intro H. apply filter_In in H. tauto.
+Qed.
+
+(* C05_concat_shape_dtype: the shape / dtype properties of the concatenated indexer and its len() are those of c[:];
+   the length is the sum of the lengths of ALL parts (parts without rows contribute nothing) *)
+Lemma concat_shape_dtype raws ts c out fulls s d :
+  Forall raw_ok raws ->
+  mapM (fun r => oindex_keep (mk_nd (r_shape r) (r_ds r)) (r_keep r)) raws = Ok fulls ->
+  c_mk raws ts = Ok c -> c_getitem c [] = Ok out ->
+  c_shape c = Ok s -> c_dtype c = Ok d ->
+  nd_shape (a_nd out) = s /\ a_dtype out = d /\ hd 0 s = zsum (map (fun a => hd 0 (nd_shape a)) fulls).
+Proof.
+  intros HR HFu HM HG HSh HDt. destruct (c_mk_used _ _ _ HM) as [psA [EP ->]].
+  pose proof (parts_fulls raws psA fulls HR EP HFu) as HPF.
+  set (fd := combine fulls (map r_dt raws)) in *.
+  set (nzp := fun p : cpart => negb (part_len p =? 0)) in *.
+  set (nzq := fun q : nd * Z => negb (hd 0 (nd_shape (fst q)) =? 0)).
+  assert (Hfst : map fst fd = fulls).
+  { unfold fd. apply combine_map_fst. rewrite map_length. exact (mapM_ok_length _ _ _ HFu). }
+  assert (HU : Forall2 PF (used_of nzp psA) (used_of nzq fd)).
+  { apply used_Forall2. eapply Forall2_impl'; [|exact HPF]. intros p q H. split; [exact H|].
+    destruct H as [_ [_ [H _]]]. unfold nzp, nzq. now rewrite H. }
+  assert (HW : zsum (map part_len (used_of nzp psA)) = zsum (map (fun a => hd 0 (nd_shape a)) fulls)).
+  { rewrite <- Hfst, map_map. rewrite <- (used_sum (fun q : nd * Z => hd 0 (nd_shape (fst q))) nzq fd).
+    - clear -HU. induction HU as [|p f l l' H _ IH]; [reflexivity|]. cbn [map zsum fold_right].
+      fold (zsum (map part_len l)). fold (zsum (map (fun q : nd * Z => hd 0 (nd_shape (fst q))) l')). rewrite IH.
+      destruct H as [_ [_ [H _]]]. now rewrite H.
+    - intros a _ Ha. unfold nzq in Ha. lia. }
+  assert (HNN : forall q, In q (used_of nzq fd) -> Forall (fun x => 0 <= x) (nd_shape (fst q))).
+  { intros q Hq. apply used_of_incl in Hq. assert (Hf : In (fst q) fulls) by (rewrite <- Hfst; now apply in_map).
+    clear -HFu Hf. apply mapM_ok_Forall2 in HFu. induction HFu as [|r f rs fs Hr _ IH]; [contradiction|].
+    destruct Hf as [<-|Hf]; [eapply oindex_keep_shape_nonneg; exact Hr|now apply IH]. }
+  remember (used_of nzp psA) as used eqn:EU. remember (used_of nzq fd) as fused eqn:EFu.
+  assert (HG' := HG). unfold c_getitem in HG'. cbn [c_parts c_ts] in HG'.
+  destruct (c_initial_shape used) as [init|] eqn:EI; [|discriminate]. cbn [bind] in HG'.
+  destruct (c_initial_dtype used) as [d0|] eqn:ED; [|discriminate]. clear HG'.
+  destruct HU as [|p0 q0 ur qr HP0 HUr]; [discriminate|].
+  set (T := part_tail p0).
+  unfold c_initial_shape in EI. destruct (forallb _ ur) eqn:EB in EI; [|discriminate]. clear EI init.
+  unfold c_initial_dtype in ED. destruct (common_dtype_spec _ _ ED) as [HLe HPr].
+  assert (HPO : Forall2 (part_ok T d0) (p0 :: ur) (map fst (q0 :: qr))).
+  { apply Forall2_map_r. cbn [map] in HLe. pose proof (Forall_inv HLe) as HLe0. pose proof (Forall_inv_tail HLe) as HLer. constructor.
+    - destruct HP0 as [PO _]. assert (E : tl (nd_shape (fst q0)) = T) by (destruct PO as [_ [E _]]; now rewrite <- E).
+      rewrite E in PO. now apply part_ok_upgrade.
+    - rewrite forallb_forall in EB. clear -HUr EB HLer. revert HLer. induction HUr as [|q f ur' fr' H _ IH]; intro HLer; [constructor|].
+      cbn [map] in HLer. pose proof (Forall_inv HLer) as HLq. pose proof (Forall_inv_tail HLer) as HLr.
+      constructor; [|apply IH; [intros x Hx; apply EB; now right|exact HLr]].
+      destruct H as [PO _]. specialize (EB q ltac:(now left)). apply list_eqb_eq in EB.
+      assert (E : tl (nd_shape (fst f)) = part_tail p0) by (destruct PO as [_ [E _]]; now rewrite <- E, <- EB).
+      rewrite E in PO. now apply part_ok_upgrade. }
+  assert (HL : Forall (fun p => 0 <= part_len p) (p0 :: ur)).
+  { constructor; [destruct HP0 as [_ [H _]]; exact H|]. clear -HUr.
+    induction HUr as [|q f ? ? H _ IH]; constructor; auto. destruct H as [_ [H _]]. exact H. }
+  assert (HTn : Forall (fun x => 0 <= x) T).
+  { assert (ET : tl (nd_shape (fst q0)) = T) by (destruct HP0 as [[_ [E _]] _]; now rewrite <- E).
+    rewrite <- ET. specialize (HNN q0 (or_introl eq_refl)). destruct (nd_shape (fst q0)); [constructor|]. now inversion HNN. }
+  destruct (concat_core_shape (p0 :: ur) (map fst (q0 :: qr)) T d0 HPO ltac:(discriminate) HL ts out s d HTn ED HG HSh HDt)
+    as [C1 [C2 C3]].
+  split; [exact C1|]. split; [exact C2|]. now rewrite C3, HW.
+Qed.
+
+(* non-vacuity of concat_shape_dtype: parts (3 rows), (0 rows), (2 rows) with a dtype-changing chain and an added axis *)
+Lemma concat_shape_dtype_example :
+  let raws := [mk_craw [3; 2] [] (arange [3; 2] 0) 0; mk_craw [0; 2] [] (arange [0; 2] 1) 0; mk_craw [4; 2] [ASlice None None (Some 2)] (arange [4; 2] 1) 0] in
+  let ts := [TMap 2 1 (Some 1); TAdd; TMap 1 0 (Some 4)] in
+  exists c out, c_mk raws ts = Ok c /\ c_getitem c [] = Ok out /\ c_shape c = Ok [5; 2; 1] /\ c_dtype c = Ok 4
+    /\ nd_shape (a_nd out) = [5; 2; 1] /\ a_dtype out = 4.
+Proof. cbv zeta. eexists. eexists. split; [vm_compute; reflexivity|]. split; [vm_compute; reflexivity|]. repeat split. Qed.
